@@ -6,7 +6,9 @@
        [nq, radix (Seq), grid (Seq of rows; row = Seq of length nq; entry = index into ops, 0 = idle),
         ops (Seq of operation records)]
    An operation record is
-       [tag, kind \in {"gate","block","barrier"}, loc (Seq of 0-based qudits), np, rad (Seq), body]
+       [tag, kind \in {"gate","block","iblock","barrier"}, loc (Seq of 0-based qudits), np, rad (Seq), body]
+   ("iblock": the inverse of a block as one operation (DaggerGate of a CircuitGate); it flattens like a block
+    but is not a CircuitGate, so it cannot be unfolded)
    tag  : identity of a leaf.  gate: the TaggedGate tag (negative = the inverse of that gate);
           barrier: BARBASE + width (barriers carry no tag, they are identified by width and by their
           position on every qudit's timeline); block: 0.
@@ -54,7 +56,7 @@ RowIds(X, c) == {X.grid[c][i] : i \in 1..X.nq} \ {0}
 \* leaf identities seen on the i-th qudit of o's location, blocks flattened recursively
 RECURSIVE Flat(_, _)
 Flat(o, i) ==
-  IF o.kind # "block" THEN <<o.tag>>
+  IF o.kind \notin {"block", "iblock"} THEN <<o.tag>>
   ELSE LET RECURSIVE Go(_)
            Go(k) == IF k > Len(o.body) THEN <<>>
                     ELSE LET b == o.body[k] IN
@@ -280,7 +282,9 @@ RefFoldSet(X, S) ==
 RefCompress(X) == AppendAll(EmptyX(X.nq, X.radix), FwdOps(X), 1)
 InvTag(t) == IF t >= BARBASE THEN t ELSE -t
 RECURSIVE InvOp(_)
-InvOp(o) == IF o.kind = "block" THEN [o EXCEPT !.body = [k \in 1..Len(o.body) |-> InvOp(o.body[Len(o.body) + 1 - k])]]
+InvOp(o) == IF o.kind \in {"block", "iblock"}
+            THEN [o EXCEPT !.body = [k \in 1..Len(o.body) |-> InvOp(o.body[Len(o.body) + 1 - k])],
+                           !.kind = IF o.kind = "block" THEN "iblock" ELSE "block"]
             ELSE [o EXCEPT !.tag = InvTag(o.tag)]
 RefInverse(X) == LET ro == RevOps(X) IN AppendAll(EmptyX(X.nq, X.radix), [k \in 1..Len(ro) |-> InvOp(ro[k])], 1)
 RefAdd(X, Y) == AppendAll(RefCompress(X), FwdOps(Y), 1)
